@@ -88,5 +88,43 @@ claim("C20", "DESIGN.md §4 C20",
       "user flavour - push-only and with a try_extend override - receives exactly the plain encoding in order.",
       "Values u16/u32 (Named best-effort); AllocVec stack best-effort." + COMMON_NOTE)
 
-for pid in ["C14","C15","C16","C17","C18","C19"]:
-    na(pid, "check under construction in this session (see DESIGN.md §4 for the plan); not yet claimed")
+STRUCT_GAP = (" NOT covered: schema trees containing the type-level Struct kind - CBMC does not fold the niche-encoded Data discriminant inside "
+              "the recursive walkers and does not terminate even on a concrete one-field struct (DESIGN.md §8); the four Data forms are covered under "
+              "Enum variants only, so a change confined to the struct-side helpers is not detected by this check. Shapes are an enumerated corpus "
+              "(CBMC cannot fold symbolic tree shapes); names are symbolic 0..=2 UTF-8 bytes; trees are built from stack nodes (arena.rs).")
+
+claim("C14", "DESIGN.md §4 C14",
+      "Bounded model checking with a lock-step checking Serializer: for every value of each corpus type the REAL Serialize call sequence is walked against the REAL T::SCHEMA - kind, "
+      "field names and order, variant index/name/Data form, arity, element/key/value types - and a schema-driven reader written from the wire spec consumes to_slice(v) exactly. Corpus: every "
+      "built-in impl at small parameters (ints, NonZero, floats, char, str/String/PathBuf, unit, tuples 1..6, arrays, slices/Vec, Option, Result, refs, four ranges, heapless 0.7/0.8, uuid, chrono, Key) "
+      "and derived unit/newtype/tuple/named/one-field/raw-identifier/generic/lifetime/nested structs and enums with all variant forms.",
+      "Type names are not compared (keys ignore them by design). Out: nalgebra (flattened schema by design), the schema types themselves (no meta-schema exists to compare with), "
+      "HashMap/HashSet (RandomState needs a syscall), BTreeMap/BTreeSet best-effort, serde attributes." + COMMON_NOTE)
+claim("C15", "DESIGN.md §4 C15",
+      "Bounded model checking over an enumerated corpus of schema shapes (every leaf kind; Option, Seq, Tuple, Map, Enum with unit/newtype/tuple/struct variants, nested containers) with all names symbolic: "
+      "to_slice(borrowed) == to_slice(owned) byte for byte, which decides that the two separately declared enums keep their variants in the same order and layout for every name; for the 20 leaf kinds also "
+      "the hand-written From conversion and the declaration index on the wire. Conversion and decoding of composite shapes are best-effort harnesses (heap trees).",
+      "Claimed in part." + STRUCT_GAP + " The 26-arm From conversion is decided only for the leaf arms unless the best-effort harnesses terminate." + COMMON_NOTE)
+claim("C16", "DESIGN.md §4 C16",
+      "Bounded model checking in three composable parts: (1) kernel - hash_update from ANY state equals the FNV-1a left fold for every byte string up to 8 bytes (cfg hook), Fnv1a64Hasher, offset basis, "
+      "little-endian digest, and injectivity of one step in the byte for every state; (2) per schema shape and for every name and path, BOTH hashers feed hash_update exactly path ++ documented tag-and-name "
+      "stream (hash_update replaced by a byte logger via Kani stubbing; reference tag table typed from the documentation); type names are absent from the stream; (3) the same shapes end-to-end with nothing "
+      "stubbed, best-effort. (1)+(2) give key == FNV-1a-64(path ++ stream) for both constructors, hence agreement.",
+      "Claimed in part." + STRUCT_GAP + " Injectivity of a step in the STATE (odd multiplier is a bijection mod 2^64) is a paper argument: the SAT back end does not decide it. "
+      "Sensitivity to reordering follows from the stream changing; absence of 64-bit collisions between different streams is not claimed (FNV is not injective)." + COMMON_NOTE)
+claim("C17", "DESIGN.md §4 C17",
+      "Bounded model checking of agreement at the leaves, where the dynamic crate keeps private copies of varint/zig-zag: for ALL values of bool, u8..u64, i8..i64, usize/isize, u128/i128 within 64 bits, "
+      "finite f32/f64, char, String <= 3 bytes, Option<u16>, unit, unit struct and newtype struct: to_stdvec_dyn(schema, serde_json::to_value(v)) == to_slice(v) and from_slice_dyn(schema, to_slice(v)) == to_value(v).",
+      "Claimed for leaves and shallow composites only: tuples, sequences, structs, enums and maps need Vec<Value>/Map<String,Value> on the heap and are best-effort harnesses (listed not covered when they do not finish). "
+      "serde_json is compiled in, not re-verified." + COMMON_NOTE)
+claim("C18", "DESIGN.md §4 C18",
+      "Bounded model checking per schema kind with every byte string of 0..=5 bytes symbolic: from_slice_dyn returns (no reachable panic/todo!/out-of-bounds) and unwinding assertions bound its loops by the input; "
+      "encoder side: for a symbolic family of JSON values (null, bool, u64, i64, f64, short string, [], [n]) to_stdvec_dyn returns, and whatever it accepts decodes under the same schema and re-encodes to the same bytes.",
+      "Claimed per kind: all leaf kinds incl. Char, Usize/Isize, 128-bit, Schema; nested Option; Struct{Newtype}; unit enums; non-string-keyed Map. Heap-heavy kinds (Seq, Tuple, named Struct, payload enums, string-keyed Map, ByteArray) "
+      "are best-effort. Schema shape is concrete per harness; inputs <= 5 bytes. Known findings are listed in known_findings.json." + COMMON_NOTE)
+claim("C19", "DESIGN.md §4 C19",
+      "Bounded model checking over the C15 shape corpus with symbolic names: discover_tys returns without panicking for every kind (incl. Usize, Isize, Schema) and the collected items are exactly the root and "
+      "every nested schema in pre-order (HashSet::insert replaced by a logging stub, RandomState::new by arbitrary keys - the set is the environment, the traversal the subject); to_pseudocode returns for leaves, "
+      "Option, Tuple, Map and single-variant enums, and mentions the enum's and the variant's name.",
+      "Claimed in part." + STRUCT_GAP + " all_used_types() with the real HashSet is out of reach (hashbrown + SipHash); a change that consults the set's contents (e.g. de-duplication by name) is invisible to the logging stub. "
+      "Rendering of multi-variant enums (Vec<String>::join on the heap) is best-effort." + COMMON_NOTE)
